@@ -138,6 +138,18 @@ def run_check(pid, tier, seed):
         except Exception:
             print(traceback.format_exc(), file=sys.stderr)
 
+    # generic widening of the search: the property's direct oracles on further seeds
+    if (broken or proof_failures) and not [f for f in findings if match_known(f, known) is None]:
+        for extra in (1, 2, 3):
+            try:
+                _, more = mod.run("quick", seed + 1000 * extra)
+            except Exception:
+                print(traceback.format_exc(), file=sys.stderr)
+                break
+            findings = list(findings) + list(more)
+            if [f for f in more if match_known(f, known) is None]:
+                break
+
     # de-duplicate findings by signature
     seen = set()
     uniq = []
